@@ -1,7 +1,7 @@
 _VG = ["valgrind", "--tool=memcheck", "--error-exitcode=9", "--exit-on-first-error=yes", "--track-origins=yes", "--undef-value-errors=yes", "--leak-check=no", "--show-mismatched-frees=no", "-q"]
 PROPS["C17"] = dict(
-    jobs=[job("alloc", "c17_history", cases={Q: 40, T: 2500}, mode="alloc"),
-          job("reset", "c17_history", cases={Q: 60, T: 4000}, mode="reset"),
+    jobs=[job("alloc", "c17_history", cases={Q: 40, T: 1500}, mode="alloc"),
+          job("reset", "c17_history", cases={Q: 60, T: 2500}, mode="reset"),
           job("capi", "c17_history", cases={Q: 20, T: 800}, mode="capi"),
           job("memcheck-alloc", "c17_history", flavour="vg", cases={Q: 2, T: 12}, mode="alloc", shards=8, wrapper=_VG),
           job("memcheck-reset", "c17_history", flavour="vg", cases={Q: 2, T: 12}, mode="reset", shards=8, wrapper=_VG)],
@@ -16,7 +16,7 @@ PROPS["C17"] = dict(
          "instance + Reset vs fresh instance + Reset. capi: C binding vs C++ facade. memcheck: the same modes under valgrind. "
          "distinct_nontrivial = distinct (mode, phase, operation kind) executed and compared",
     floors={Q: {"observations": 5000, "histories_straight_after_construction": 100, "dirtying_ops": 5000},
-            T: {"observations": 300000, "histories_straight_after_construction": 8000, "dirtying_ops": 300000}},
+            T: {"observations": 200000, "histories_straight_after_construction": 5000, "dirtying_ops": 200000}},
     ready=True,
     technique="runtime monitoring: twin instances under different heap-fill patterns / dirty-then-Reset vs fresh, full observation comparison, plus valgrind memcheck on the same histories",
     level_text="Exploration: seeded API histories on real instances; allocation independence is checked by replacing operator new with pattern fills, Reset-equals-fresh by a dirty/fresh twin, uninitialised-value use additionally by valgrind memcheck.",
